@@ -56,6 +56,8 @@ pub enum Sc10 {
     /// client shutdown whose first dispatch poll after the last handle drop runs on a nearly exhausted
     /// cooperative-scheduling budget
     ClientCoop { sc: CScenario, budget: u8 },
+    /// the raw BaseChannel stream/sink against the exact model (props/rawchan.rs)
+    Raw(super::rawchan::RawScenario),
 }
 pub struct C10;
 impl Prop for C10 {
@@ -68,7 +70,8 @@ impl Prop for C10 {
          Oracle: dispatch returns Ok(()); on the handle-drop path poll_close is called and completes, every cancellation owed (abandoned, on the wire, not excused by response/deadline/write failure) is written before the first poll_close, nothing is written after it; \
          on the peer-close path the dispatch has ended by the next quiescence and no call is left pending. \
          Server: inbound end-of-stream at a generated point with requests in flight, handlers completing in any order, cancels/expiries/handler drops, sink blocked for stretches; oracle: the request stream does not end while the model has an in-flight request, \
-         no response is written after it ended, every handler that completed in time was answered, and the stream ends at the first quiescence with inbound closed, nothing in flight and everything flushed. Non-trivial = shutdown began with queued cancellations, or peer close with outstanding calls; distinct = distinct scenario JSON."
+         no response is written after it ended, every handler that completed in time was answered, and the stream ends at the first quiescence with inbound closed, nothing in flight and everything flushed. \
+         Raw channel: BaseChannel polled directly as a Stream and answered through its Sink (no Requests in between) against an exact model of the tracked set: the stream returns None exactly when inbound is closed and nothing is tracked, Pending otherwise, and external input wakes it. Non-trivial = shutdown began with queued cancellations, or peer close with outstanding calls; distinct = distinct scenario JSON."
             .into()
     }
     fn work(&self, tier: Tier) -> Work {
@@ -82,6 +85,7 @@ impl Prop for C10 {
             3 => super::c10::strategy_client().prop_map(Sc10::Client),
             4 => sstrat(&sprops::c10s_profile()).prop_map(Sc10::Server),
             1 => (super::c10::strategy_client(), 0u8..6).prop_map(|(sc, budget)| Sc10::ClientCoop { sc, budget }),
+            2 => super::rawchan::strategy().prop_map(Sc10::Raw),
         ]
         .boxed()
     }
@@ -90,6 +94,7 @@ impl Prop for C10 {
             Sc10::Client(c) => super::c10::check_client(c),
             Sc10::ClientCoop { sc, budget } => super::c10::check_client_opt(sc, Some(*budget)),
             Sc10::Server(sc) => sprops::c10s_check(sc),
+            Sc10::Raw(sc) => super::rawchan::check_for("C10", sc),
         }
     }
 }
@@ -98,6 +103,7 @@ impl Prop for C10 {
 pub enum Sc11 {
     Client { sc: CScenario, send_fault: Option<u8> },
     Server { sc: SScenario, drop_channel: bool },
+    Raw(super::rawchan::RawScenario),
 }
 pub struct C11;
 impl Prop for C11 {
@@ -110,7 +116,8 @@ impl Prop for C11 {
          Oracle: at each request write fewer than max_in_flight earlier requests are certainly still in flight (wire model); at every quiescence hook H2 reports entries == timers and lower <= entries <= upper of the wire model; \
          once all calls ended the client tracks 0 requests and 0 timers without advancing time and the dispatch completes as soon as the handles are dropped. \
          Server (no limiter, raw Requests path): up to 250 ops ending requests by response, cancel, expiry, handler dropped midway, request never executed, channel dropped; oracle: in_flight_requests() within the model's [lower, upper] and timers == entries at every quiescence; \
-         after every yielded request has ended, 0 entries and 0 timers with the clock stopped, and closing the inbound side ends the stream immediately. Non-trivial = >=3 removal routes and >= 2*max_in_flight requests transmitted; distinct = distinct scenario JSON."
+         after every yielded request has ended, 0 entries and 0 timers with the clock stopped, and closing the inbound side ends the stream immediately. \
+         Raw channel (BaseChannel as Stream + Sink, exact model): in_flight_requests() and the number of deadline timers equal the model's tracked set after every poll and every start_send. Non-trivial = >=3 removal routes and >= 2*max_in_flight requests transmitted; distinct = distinct scenario JSON."
             .into()
     }
     fn work(&self, tier: Tier) -> Work {
@@ -121,10 +128,11 @@ impl Prop for C11 {
     }
     fn strategy(&self, _tier: Tier) -> BoxedStrategy<Sc11> {
         prop_oneof![
-            (super::c11::strategy_client(), proptest::option::weighted(0.3, 0u8..40))
+            3 => (super::c11::strategy_client(), proptest::option::weighted(0.3, 0u8..40))
                 .prop_map(|(sc, send_fault)| Sc11::Client { sc, send_fault }),
-            (sstrat(&sprops::c11s_profile()), proptest::bool::weighted(0.2))
+            3 => (sstrat(&sprops::c11s_profile()), proptest::bool::weighted(0.2))
                 .prop_map(|(sc, drop_channel)| Sc11::Server { sc, drop_channel }),
+            1 => super::rawchan::strategy().prop_map(Sc11::Raw),
         ]
         .boxed()
     }
@@ -132,18 +140,31 @@ impl Prop for C11 {
         match sc {
             Sc11::Client { sc, send_fault } => super::c11::check_client(sc, *send_fault),
             Sc11::Server { sc, drop_channel } => sprops::c11s_check(sc, *drop_channel),
+            Sc11::Raw(sc) => super::rawchan::check_for("C11", sc),
         }
     }
 }
 
+/// Scenario of the single-channel server properties: a server-engine scenario (the shape of every
+/// existing replay/regression file) or, for the properties that opt in, a raw-channel scenario.
+#[derive(Clone, Debug, Serialize, Deserialize)]
+#[serde(untagged)]
+pub enum ScS {
+    Raw { raw: super::rawchan::RawScenario },
+    Server(SScenario),
+}
+
 macro_rules! server_prop {
     ($name:ident, $id:expr, $prof:path, $check:path, $quick:expr, $thorough:expr, $rule:expr) => {
-        server_prop!($name, $id, $prof, $check, $quick, $thorough, $rule, Vec::new);
+        server_prop!($name, $id, $prof, $check, $quick, $thorough, $rule, Vec::new, 0);
     };
     ($name:ident, $id:expr, $prof:path, $check:path, $quick:expr, $thorough:expr, $rule:expr, $probes:expr) => {
+        server_prop!($name, $id, $prof, $check, $quick, $thorough, $rule, $probes, 0);
+    };
+    ($name:ident, $id:expr, $prof:path, $check:path, $quick:expr, $thorough:expr, $rule:expr, $probes:expr, $raw_weight:expr) => {
         pub struct $name;
         impl Prop for $name {
-            type Scenario = SScenario;
+            type Scenario = ScS;
             fn id(&self) -> &'static str {
                 $id
             }
@@ -156,14 +177,26 @@ macro_rules! server_prop {
                     Tier::Thorough => Work { cases_per_worker: $thorough, workers: 16 },
                 }
             }
-            fn strategy(&self, _tier: Tier) -> BoxedStrategy<SScenario> {
-                sstrat(&$prof())
+            fn strategy(&self, _tier: Tier) -> BoxedStrategy<ScS> {
+                if $raw_weight == 0 {
+                    sstrat(&$prof()).prop_map(ScS::Server).boxed()
+                } else {
+                    prop_oneof![
+                        6 => sstrat(&$prof()).prop_map(ScS::Server),
+                        $raw_weight => super::rawchan::strategy().prop_map(|raw| ScS::Raw { raw }),
+                    ]
+                    .boxed()
+                }
             }
-            fn run_case(&self, sc: &SScenario) -> CaseResult {
-                $check(sc)
+            fn run_case(&self, sc: &ScS) -> CaseResult {
+                match sc {
+                    ScS::Server(sc) => $check(sc),
+                    ScS::Raw { raw } => super::rawchan::check_for($id, raw),
+                }
             }
-            fn probes(&self) -> Vec<(String, String, SScenario)> {
-                $probes()
+            fn probes(&self) -> Vec<(String, String, ScS)> {
+                let p: Vec<(String, String, SScenario)> = $probes();
+                p.into_iter().map(|(a, b, c)| (a, b, ScS::Server(c))).collect()
             }
         }
     };
@@ -181,14 +214,17 @@ server_prop!(C08, "C08", sprops::c08_profile, sprops::c08_check, 10000, 120000,
     "Scenario = server channel config (no limiter; raw Requests path or execute() adaptor; response buffer 1-4; transport cap 1-3, both readiness models) + up to 70 generated ops: requests with fresh small ids, fresh 64-bit ids, \
      ids duplicating an in-flight request, ids reused after their response was written; cancels (incl. unknown ids), handler completions in generated order, handlers dropped, sink blocked, peer close, channel drop. \
      Oracle: reference model of read-and-unanswered ids: each non-duplicate request read is offered exactly once, in arrival order; duplicates-in-flight are ignored; every Response written bears an id that is read-and-unanswered at that moment (so at most one per request, none after cancel/expiry), \
-     only after its handler completed and with that handler's result. Non-trivial = a duplicate-in-flight and an id reuse both occurred and >=2 handlers completed out of order; distinct = distinct scenario JSON.");
+     only after its handler completed and with that handler's result. Raw channel (one case in four; BaseChannel as Stream + Sink against an exact model, ids drawn from a space of 8 so duplicates and reuse - also after cancel or expiry, exact here because no handler guard exists - are frequent): \
+     every poll_next result is predicted (yield of exactly the next unread non-duplicate request, Pending, or end), and start_send(Response) hands an item to the transport iff the id is tracked. \
+     Non-trivial = a duplicate-in-flight and an id reuse both occurred and >=2 handlers completed out of order; distinct = distinct scenario JSON.", Vec::new, 2);
 
 server_prop!(C06, "C06", sprops::c06_profile, sprops::c06_check, 10000, 120000,
     "Scenario = server channel config (limit none/1/2/4, both paths, both readiness models) + up to 70 generated ops under virtual time: 1-6 concurrent requests with deadlines already expired, 0, us..minutes, days..2.1y; \
      clock steps landing on deadline-1ms/deadline/+1ms/+2ms; handlers completed before/at/after their deadline; sink blocked for stretches (finding F6 region steered around and counted). \
      Oracle: no handler is dropped unfinished before its deadline without a cancel/application drop/channel drop; at the first quiescence >= max(D, read time)+2ms the handler is gone and never polled again; nothing is written for an expired request; \
-     a handler that completed before D is answered at the next writable quiescence before D. Non-trivial = one request expired while another with a different deadline was answered later, or a completion within 1 ms of its deadline; distinct = distinct scenario JSON.",
-    c06_probes);
+     a handler that completed before D is answered at the next writable quiescence before D. Raw channel (one case in four; BaseChannel as Stream + Sink against an exact model): a request's abort registration fires at the first poll >= max(D, read)+2 ms and never at a poll before D, the idle channel is woken by the timer, a response offered after expiry hands nothing to the transport. \
+     Non-trivial = one request expired while another with a different deadline was answered later, or a completion within 1 ms of its deadline; distinct = distinct scenario JSON.",
+    c06_probes, 2);
 
 server_prop!(C12, "C12", sprops::c12_profile, sprops::c12_check, 10000, 120000,
     "Scenario = server channel behind max_concurrent_requests(L), L in {0,1,2,3,5}, + up to 70 generated ops: bursts larger than L, cancels, a Cancel immediately followed by a fresh request before one poll, completions and response writes in any order, sink blocked for stretches, duplicates-in-flight. \
@@ -199,6 +235,7 @@ server_prop!(C12, "C12", sprops::c12_profile, sprops::c12_check, 10000, 120000,
 pub enum Sc04 {
     Server(SScenario),
     Chain(super::chprops::ChScenario),
+    Raw(super::rawchan::RawScenario),
 }
 pub struct C04;
 impl Prop for C04 {
@@ -211,6 +248,7 @@ impl Prop for C04 {
          (finding F6 region steered around and counted). Oracle: after the poll in which the channel read Cancel(id) for a tracked id the handler's inner future is never polled or started again, it is observed dropped, no Response(id) is written (reference model of read-and-unanswered ids), \
          in_flight_requests() agrees with the model at every quiescence, and no other handler is aborted without cause. \
          Cascade: chains of 1-3 real client->server hops (shipped in-memory channel, serde+JSON, serde+bincode over byte pipes) whose handlers call the next hop with their context; the head call is abandoned at a generated point; at quiescence every hop's unanswered request is followed by a Cancel and no handler of the abandoned call is left alive. \
+         Raw channel (BaseChannel as Stream + Sink, exact model): a Cancel read for a tracked id sets that request's abort registration, removes it from the count, and a later start_send(Response) for it hands nothing to the transport; cancels for untracked ids change nothing. \
          Non-trivial = a cancel hit a handler that had been polled and not completed, or (cascade) depth >= 2 with an unfinished leaf handler; distinct = distinct scenario JSON."
             .into()
     }
@@ -224,6 +262,7 @@ impl Prop for C04 {
         prop_oneof![
             3 => sstrat(&sprops::c04_profile()).prop_map(Sc04::Server),
             2 => super::chprops::strategy(&super::chprops::c04c_profile()).prop_map(Sc04::Chain),
+            1 => super::rawchan::strategy().prop_map(Sc04::Raw),
         ]
         .boxed()
     }
@@ -231,6 +270,7 @@ impl Prop for C04 {
         match sc {
             Sc04::Server(s) => sprops::c04_check(s),
             Sc04::Chain(c) => super::chprops::c04c_check(c),
+            Sc04::Raw(c) => super::rawchan::check_for("C04", c),
         }
     }
     fn probes(&self) -> Vec<(String, String, Sc04)> {
